@@ -908,8 +908,12 @@ Lemma import_binding real e specs priv emb t :
   forall i, In i (snd (find_interface e specs priv emb t)) -> bound_name real i = i_alias i.
 Proof.
   intros He Hs Ht i Hi. unfold find_interface, to_iface in Hi.
-  pose proof (to_iface_binding real e He priv emb true t (calc_imports e specs)
-                (calc_imports_binding real e He specs Hs) Ht) as H.
-  destruct (to_iface_gen e priv emb true (calc_imports e specs) t) as [ms st]. simpl in *.
+  set (e' := handler_env e specs) in *.
+  assert (He' : forall p n, assoc (e_pkg_imports e') p = Some n -> n = real p) by exact He.
+  assert (Hc : calc_imports e specs = calc_imports e' specs) by reflexivity.
+  rewrite Hc in Hi.
+  pose proof (to_iface_binding real e' He' priv emb true t (calc_imports e' specs)
+                (calc_imports_binding real e' He' specs Hs) Ht) as H.
+  destruct (to_iface_gen e' priv emb true (calc_imports e' specs) t) as [ms st]. simpl in *.
   apply active_In in Hi as [Hi _]. apply H. assumption.
 Qed.
